@@ -15,11 +15,30 @@ RULE = ("Generated test programs with addCleanup at every position (before/after
         "failing _setUp / failing cleanup / one nested fixture, and all fault kinds incl. non-Exception ones; the same "
         "TestCase instance is run 2-3 times. Oracle: the execution log written by the generated code equals the "
         "reference interpreter's log in every run; scratch objects equal their pre-test state after every run; every "
-        "run gives the same log, outcome and detail markers. Non-trivial: a cleanup registered from tearDown or from "
+        "run gives the same log, outcome and detail markers. A grid of hand-written programs adds what that vocabulary lacks: "
+        "13 kinds of callable handed to addCleanup (functools.partial, callable instance, builtin method, class, Mock, "
+        "methodcaller, bound method of the test, enterContext, keyword arguments named like the parameters of the runner's "
+        "plumbing), entry through case(result) / run(), another TestCase or a clone of the running one run from inside a "
+        "stage or a cleanup (each keeps its own cleanups), result.stop() during the test, patch() with a value equal to but "
+        "distinct from the original or with incomparable values (the original object itself is back afterwards), one "
+        "MonkeyPatcher with several patches undone by a cleanup / run_with_patches, a duck-typed fixture, a chain of 1100 "
+        "cleanups each registering the next, and exceptions whose traceback cannot be rendered raised by the test method / "
+        "tearDown. Non-trivial: a cleanup registered from tearDown or from "
         "another cleanup, or a fault before pending cleanups, or a fixture; distinct = distinct canonical program.")
 ASSUMPTIONS = [
     "programs are deterministic by construction, so repeating run() must repeat the sequence",
     "fixture internals follow the fixtures library (a failing _setUp runs the fixture's own cleanups immediately)",
+    "'has its pre-test value' is read as identity in the direct grid: after the run the attribute holds the very object it held before, "
+    "not merely one that compares equal (a test that patches os.environ with a copy must get os.environ itself back)",
+    "MonkeyPatcher.patch() / run_with_patches count as patch(): the statement names TestCase.patch(), its anchors name MonkeyPatcher.restore",
+    "a test that runs another TestCase instance (or a clone made with clone_test_with_new_id before the first run) from inside one of its "
+    "stages is inside 'for every test'; the programs of C01 do not nest, so this reading is the check's",
+    "result.stop() called while the test runs does not cancel the cleanups it owes (stop() before the test starts is not exercised)",
+    "the 'no cleanup is left registered' clause reads the private list TestCase._cleanups (there is no public accessor); "
+    "under another name the clause is vacuous and only the exactly-once log clauses remain",
+    "excluded inputs (recorded, not filed): an unrenderable exception raised by setUp or by a cleanup (third audit B1), keyword "
+    "arguments named 'self' / 'function' (refused by addCleanup's own signature), cleanups registered before run() or by an "
+    "addOnException handler, explicit doCleanups() / debug()",
 ]
 
 PROG = P.programs(nonexc=True, multi=True, patch=True, fixture=True, expect=True, force=True, cleanup_depth=3, p_raise=4, extras=True,
@@ -41,10 +60,21 @@ def summarize(obs):
     return [e[0] for e in outs], markers
 
 
+def _acts(prog):
+    """Every action of a program, nested cleanup bodies included (structural: no substring tests on repr)."""
+    todo = [a for s in ("setUp_pre", "setUp_post", "body", "tearDown_pre", "tearDown_post") for a in prog[s]]
+    while todo:
+        a = todo.pop()
+        yield a
+        if isinstance(a.get("body"), list):
+            todo += a["body"]
+
+
 def run_case(spec):
     prog = spec["prog"]
     vs = []
-    per_run = "'runs'" in repr(prog)        # some actions happen only in certain runs of the instance
+    acts = list(_acts(prog))
+    per_run = any(a.get("runs") is not None for a in acts)        # some actions happen only in certain runs of the instance
     model = P.Model(prog).run()
     live = P.Live()
     case = None
@@ -106,10 +136,11 @@ def run_case(spec):
         return f
     late = walk(prog["tearDown_pre"] + prog["tearDown_post"], 0, True) or any(
         walk(prog[s], 0, False) for s in ("setUp_pre", "setUp_post", "body"))
-    fx = "fixture" in repr(prog)
+    fx = any(a["a"] == "fixture" for a in acts)
     nt = late or fx or (bool(model.raised) and any(x[0] == "C" for x in model.log))
     return Case(vs, nt, ["runs=%d" % spec["runs"], "late-cleanup" if late else "", "fixture" if fx else "",
-                         "patch" if "'patch'" in repr(prog) else "", "per-run-actions" if per_run else "", "burst" if "cleanup_burst" in repr(prog) else "", "raises=%d" % min(len(model.raised), 4)],
+                         "patch" if any(a["a"] == "patch" for a in acts) else "", "per-run-actions" if per_run else "",
+                         "burst" if any(a["a"] == "cleanup_burst" for a in acts) else "", "raises=%d" % min(len(model.raised), 4)],
                 {"log": model.log[:12]})
 
 
@@ -165,6 +196,568 @@ def _enum_double_patch():
                         yield {"prog": prog, "runs": 2, "flavour": flavour}
 
 
+# ----------------------------------------------------------------------------- direct programs
+# (third audit A2, A3 and the open items of the first two.)  The vocabulary of vp.programs registers Python closures
+# only, runs one instance at a time and patches strings.  The programs below are written out as small op lists:
+#   {"o": "log", "n": name} | {"o": "raise", "k": error|kbi|skip|fail} | {"o": "stop"} |
+#   {"o": "reg", "n": name, "k": callable kind, "b": [ops run by the cleanup]} | {"o": "inner"} |
+#   {"o": "patchv", "v": value kind} | {"o": "patcher", "n": name, "via": cleanup|rwp|rwp_raise} |
+#   {"o": "read", "n": name} | {"o": "chain", "n": length, "fail_at": k|None}
+# A plan is {"setUp": ops, "body": ops, "tearDown": ops}; DModel is its reference interpreter.
+D_CALLABLES = ("closure", "lambda", "partial", "partial_args", "instance", "builtin", "class", "bound", "mock",
+               "methodcaller", "self_method", "cm", "kwnames")
+D_VALUES = ("list_copy", "dict_copy", "str_copy", "bool_int", "always_equal", "never_equal", "nan", "eq_raises")
+D_ATTRS = ("x", "nonev", "missing")
+
+
+class DModel:
+    """Reference interpreter of a direct program: stages in order, then every registered callable once, LIFO."""
+
+    def __init__(self, spec):
+        self.spec = spec
+        self.log = []
+        self.state = {"x": "orig-x", "nonev": None}
+
+    def get(self, attr):
+        return self.state.get(attr, "<absent>")
+
+    def run(self, plan=None):
+        plan = plan or self.spec["plan"]
+        stack = []
+
+        def ops(lst):
+            for op in lst:
+                o = op["o"]
+                if o == "log":
+                    self.log.append(("L", op["n"]))
+                elif o == "raise":
+                    self.log.append(("X", op["k"]))
+                    return False
+                elif o == "stop":
+                    pass
+                elif o == "reg":
+                    if op["k"] == "cm":
+                        self.log.append(("L", op["n"] + ":enter"))
+                    stack.append(op)
+                elif o == "inner":
+                    self.run(self.spec["inner"]["plan"])        # its own stack; whatever it raised stays inside its run()
+                elif o == "patchv":
+                    pass                                        # judged by identity after the run
+                elif o == "read":
+                    self.log.append(("R", op["n"]) + tuple(self.get(a) for a in D_ATTRS))
+                elif o == "patcher":
+                    before = dict(self.state)
+                    self.state.update({"x": "b", "missing": "m", "nonev": "n"})
+                    if op["via"] == "cleanup":
+                        stack.append({"o": "unpatcher", "state": before})
+                        self.log.append(("R", op["n"]) + tuple(self.get(a) for a in D_ATTRS))
+                    else:
+                        self.log.append(("R", op["n"]) + tuple(self.get(a) for a in D_ATTRS))
+                        self.state = before
+                        self.log.append(("R", op["n"] + ":after") + tuple(self.get(a) for a in D_ATTRS))
+                        if op["via"] == "rwp_raise":
+                            return False
+                elif o == "chain":
+                    stack.append({"o": "link", "i": 0, "n": op["n"], "fail_at": op.get("fail_at")})
+                elif o == "duck":
+                    self.log.append(("FS", op["n"]))
+                    stack.append(op)
+                else:
+                    raise AssertionError(o)
+            return True
+
+        if ops(plan["setUp"]):
+            ops(plan["body"])
+            ops(plan["tearDown"])
+        while stack:
+            op = stack.pop()
+            if op["o"] == "reg":
+                self.log.append(("C", op["n"]))
+                ops(op["b"])
+            elif op["o"] == "unpatcher":
+                self.state = op["state"]
+            elif op["o"] == "duck":
+                self.log.append(("FC", op["n"]))
+            elif op["o"] == "link":
+                self.log.append(("K", op["i"]))
+                if op["i"] + 1 < op["n"]:
+                    stack.append(dict(op, i=op["i"] + 1))
+        return self
+
+
+def _d_kw_names():
+    """Keyword names a cleanup may legitimately be registered with and that the plumbing between addCleanup and the
+    call could be tempted to use for its own parameters: read off the tree under test (input generation only; the
+    oracle does not depend on them).  addCleanup's own positional parameters are left out: testtools does not
+    declare them positional-only, so those names are refused at registration (recorded, not filed)."""
+    import inspect
+    from testtools.runtest import RunTest
+    from testtools.testcase import TestCase
+    names = {"k", "fn", "function_", "result", "exc_info", "tb_label"}
+    own = {"self", "function"}
+    try:
+        ps = list(inspect.signature(TestCase.addCleanup).parameters.values())
+        own |= {q.name for q in ps if q.kind in (q.POSITIONAL_ONLY, q.POSITIONAL_OR_KEYWORD, q.KEYWORD_ONLY)}
+        names |= {q.name for q in ps if q.kind in (q.VAR_POSITIONAL, q.VAR_KEYWORD)}
+    except (TypeError, ValueError):
+        pass
+    for meth in ("_run_user", "_run_cleanups", "_got_user_exception", "_run_core", "_run_one", "run"):
+        f = getattr(RunTest, meth, None)
+        try:
+            ps = list(inspect.signature(f).parameters.values())
+        except (TypeError, ValueError):
+            continue
+        names |= {q.name for q in ps}
+    return sorted(names - own)
+
+
+def _d_value(kind, copy):
+    """The pre-test value of a patched attribute (copy=False) / what the test patches in: equal to it, or of a type
+    whose == cannot be asked, but never the same object."""
+    class AlwaysEqual:
+        __hash__ = object.__hash__
+
+        def __eq__(self, other):
+            return True
+
+        def __ne__(self, other):
+            return False
+
+    class NeverEqual:
+        __hash__ = object.__hash__
+
+        def __eq__(self, other):
+            return False
+
+        def __ne__(self, other):
+            return True
+
+    class Ambiguous:
+        def __bool__(self):
+            raise ValueError("The truth value of an array with more than one element is ambiguous")
+
+    class ArrayLike:
+        __hash__ = object.__hash__
+
+        def __eq__(self, other):
+            return Ambiguous()
+
+        def __ne__(self, other):
+            return Ambiguous()
+
+    if kind == "list_copy":
+        return [1, 2]
+    if kind == "dict_copy":
+        return {"PATH": "/bin"}
+    if kind == "str_copy":
+        return "-".join(["orig", "value"])            # built at run time: two calls give two objects
+    if kind == "bool_int":
+        return 0 if copy else False
+    if kind == "nan":
+        return float("nan")
+    return {"always_equal": AlwaysEqual, "never_equal": NeverEqual, "eq_raises": ArrayLike}[kind]()
+
+
+def _d_build(spec, ctx):
+    """-> (outer case, inner case or None); the stage bodies interpret the plans and write ctx['log']."""
+    import functools
+    import operator
+    import types
+    import unittest.mock
+    import testtools
+    from testtools.monkey import MonkeyPatcher
+    log = ctx["log"]
+    WANT = ((1, "two"), {"k": 3})
+
+    class ApiError(Exception):
+        def __init__(self, msg, body):
+            super().__init__(msg)
+            self.body = body
+
+        def __getattr__(self, name):
+            return self.body[name]
+
+    class Duck:
+        """Not a fixtures.Fixture: just the three methods useFixture needs."""
+
+        def __init__(self, op):
+            self.op = op
+
+        def setUp(self):
+            log.append(("FS", self.op["n"]))
+
+        def cleanUp(self):
+            log.append(("FC", self.op["n"]))
+            if self.op.get("cfail"):
+                raise RuntimeError("MARK-9-")
+
+        def getDetails(self):
+            return {}
+
+    def read(name):
+        o = ctx["obj"]
+        log.append(("R", name) + tuple(getattr(o, a, "<absent>") for a in D_ATTRS))
+
+    def register(case, op):
+        name, kind = op["n"], op["k"]
+        want = WANT
+
+        def fn(*args, **kw):
+            log.append(("C", name))
+            if (args, kw) != want:
+                log.append(("BADARGS", name, repr(args), repr(kw)))
+            do(case, op["b"])
+
+        if kind == "closure":
+            want = ((), {})
+            case.addCleanup(fn)
+        elif kind == "lambda":
+            want = ((), {})
+            case.addCleanup(lambda: fn())
+        elif kind == "partial":
+            want = ((1, "two"), {"k": 3})
+            case.addCleanup(functools.partial(fn, 1, "two", k=3))
+        elif kind == "partial_args":
+            case.addCleanup(functools.partial(fn, 1), "two", k=3)
+        elif kind == "instance":
+            class Closer:                      # a callable object: no __name__, no __code__
+                def __call__(self, *a, **kw):
+                    return fn(*a, **kw)
+            case.addCleanup(Closer(), 1, "two", k=3)
+        elif kind == "builtin":
+            assert not op["b"]
+            case.addCleanup(log.append, ("C", name))
+        elif kind == "class":
+            class Rec:
+                def __init__(self, *a, **kw):
+                    fn(*a, **kw)
+            case.addCleanup(Rec, 1, "two", k=3)
+        elif kind == "bound":
+            class Res:
+                def close(self, *a, **kw):
+                    return fn(*a, **kw)
+            case.addCleanup(Res().close, 1, "two", k=3)
+        elif kind == "mock":
+            case.addCleanup(unittest.mock.Mock(side_effect=fn), 1, "two", k=3)
+        elif kind == "methodcaller":
+            class Res2:
+                def close(self, *a, **kw):
+                    return fn(*a, **kw)
+            case.addCleanup(operator.methodcaller("close", 1, "two", k=3), Res2())
+        elif kind == "self_method":
+            case.addCleanup(types.MethodType(lambda self_, *a, **kw: fn(*a, **kw), case), 1, "two", k=3)
+        elif kind == "cm":
+            want = ((None, None, None), {})
+
+            class CM:
+                def __enter__(self):
+                    log.append(("L", name + ":enter"))
+                    return self
+
+                def __exit__(self, *exc):
+                    fn(*exc)
+            if hasattr(case, "enterContext"):
+                case.enterContext(CM())
+            else:
+                cm = CM()
+                cm.__enter__()
+                case.addCleanup(cm.__exit__, None, None, None)
+        elif kind == "kwnames":
+            kws = {n: i for i, n in enumerate(_d_kw_names())}
+            want = ((), kws)
+            case.addCleanup(fn, **kws)
+        else:
+            raise AssertionError(kind)
+
+    def do(case, ops):
+        for op in ops:
+            o = op["o"]
+            if o == "log":
+                log.append(("L", op["n"]))
+            elif o == "raise":
+                log.append(("X", op["k"]))
+                if op["k"] == "error":
+                    raise RuntimeError("MARK-1-")
+                if op["k"] == "kbi":
+                    raise KeyboardInterrupt("MARK-2-")
+                if op["k"] == "skip":
+                    raise case.skipException("MARK-3-")
+                if op["k"] == "api_error":
+                    # an error object that answers attribute lookups from a payload (traceback rendering asks it for __notes__)
+                    raise ApiError("MARK-7-", {"code": 429})
+                if op["k"] == "syntax_error":
+                    raise SyntaxError("MARK-8-", ("f.py", 1, 2, 12345))        # 'text' is not text
+                raise case.failureException("MARK-4-")
+            elif o == "stop":
+                ctx["result"].stop()
+            elif o == "reg":
+                register(case, op)
+            elif o == "inner":
+                ctx["inner"].run(testtools.TestResult())
+            elif o == "patchv":
+                case.patch(ctx["obj"], "x", _d_value(op["v"], True))
+            elif o == "read":
+                read(op["n"])
+            elif o == "patcher":
+                obj = ctx["obj"]
+                mp = MonkeyPatcher((obj, "x", "a"), (obj, "x", "b"), (obj, "missing", "m"), (obj, "nonev", "n"))
+                if op["via"] == "cleanup":
+                    mp.patch()
+                    case.addCleanup(mp.restore)
+                    read(op["n"])
+                else:
+                    def inside():
+                        read(op["n"])
+                        if op["via"] == "rwp_raise":
+                            raise RuntimeError("MARK-5-")
+                    try:
+                        mp.run_with_patches(inside)
+                    finally:
+                        read(op["n"] + ":after")
+            elif o == "chain":
+                def link(i, n=op["n"], fail_at=op.get("fail_at")):
+                    log.append(("K", i))
+                    if i + 1 < n:
+                        case.addCleanup(link, i + 1)
+                    if i == fail_at:
+                        raise RuntimeError("MARK-6-")
+                case.addCleanup(link, 0)
+            elif o == "duck":
+                case.useFixture(Duck(op))
+            else:
+                raise AssertionError(o)
+
+    def mk(plan_of):
+        class Direct(testtools.TestCase):
+            def setUp(self):
+                super().setUp()
+                do(self, plan_of(self)["setUp"])
+
+            def test_direct(self):
+                do(self, plan_of(self)["body"])
+
+            def tearDown(self):
+                do(self, plan_of(self)["tearDown"])
+                super().tearDown()
+        return Direct
+
+    inner_spec = spec.get("inner")
+    outer_cls = mk(lambda self: inner_spec["plan"] if self.id() == "vp-inner" else spec["plan"])
+    outer = outer_cls("test_direct")
+    inner = None
+    if inner_spec:
+        if inner_spec["how"] == "clone":
+            # cloned from the constructed, not yet executed test (the documented use); a shallow copy
+            inner = testtools.clone_test_with_new_id(outer, "vp-inner")
+        else:
+            inner = mk(lambda self: inner_spec["plan"])("test_direct")
+    return outer, inner
+
+
+def run_direct(spec):
+    import unittest
+    import testtools
+    from vp.results import Ext
+    vs = []
+    model = DModel(spec).run()
+    live = P.Live()
+    obj = live.objs[spec.get("obj", 0)]
+    ctx = {"log": [], "obj": obj, "result": None, "inner": None}
+    case, ctx["inner"] = _d_build(spec, ctx)
+    vkind = spec.get("vkind")
+    orig = _d_value(vkind, False) if vkind else None
+    if vkind:
+        setattr(obj, "x", orig)
+    pristine = [P.snapshot_obj(o) for o in live.objs]
+
+    def absent(v):
+        return type(v) is str and v == "<absent>"
+
+    def same_val(a, b):  # with the value kinds above the attribute values are compared by identity: their == says nothing
+        if a is b or (absent(a) and absent(b)):
+            return True
+        return not vkind and not absent(a) and not absent(b) and a == b
+
+    def same(a, b):
+        return all(same_val(x[k], y[k]) for x, y in zip(a, b) for k in x)
+    first = None
+    for n in range(spec.get("runs", 2)):
+        del ctx["log"][:]
+        shared = []
+        res = {"ext": lambda: Ext(log=shared), "real": testtools.TestResult, "stdlib": unittest.TestResult}[spec.get("result", "ext")]()
+        ctx["result"] = res
+        raised = None
+        try:
+            entry = spec.get("entry", "run")
+            if entry == "run":
+                case.run(res)
+            elif entry == "call":
+                case(res)
+            else:
+                case.defaultTestResult = lambda: res
+                case.run()
+        except BaseException as e:
+            if isinstance(e, MemoryError):
+                raise
+            raised = e
+        log = list(ctx["log"])
+        if log != model.log:
+            i = next((k for k, (a, b) in enumerate(zip(log, model.log)) if a != b), min(len(log), len(model.log)))
+            got = log[i] if i < len(log) else None
+            want = model.log[i] if i < len(model.log) else None
+            kind = "missing" if got is None else ("extra" if want is None else "order")
+            vs.append(V("sequence", "direct-%s-%s" % (spec["direct"], kind),
+                        "run %d: execution log diverges at %d: got %r, reference %r (run() raised %r)\n got: %r\n ref: %r" % (
+                            n, i, got, want, raised, log[:40], model.log[:40])))
+        now = [P.snapshot_obj(o) for o in live.objs]
+        if not same(now, pristine):
+            vs.append(V("restore", "direct-patched-attributes", "after run %d the scratch objects are %r, before the test %r%s" % (
+                n, now, pristine, " (compared by identity)" if vkind else "")))
+        if getattr(case, "_cleanups", None):
+            vs.append(V("restore", "direct-cleanups-left", "%d cleanups still registered after run %d" % (len(case._cleanups), n)))
+        if spec.get("result", "ext") == "ext":
+            summ = [e[0] for e in shared if e[0] in OUTCOMES]
+        else:
+            summ = [res.testsRun, len(res.errors), len(res.failures), len(getattr(res, "skipped", ()))]
+        cur = (log, summ, type(raised).__name__)
+        if first is None:
+            first = cur
+        elif cur != first and not vs:
+            vs.append(V("rerun", "direct-differs", "run %d differs from run 0: outcome %r / raised %s vs %r / %s" % (n, summ, cur[2], first[1], first[2])))
+        for o, p in zip(live.objs, pristine):
+            for a, v in p.items():
+                if not same_val(v, getattr(o, a, "<absent>")):
+                    if absent(v):
+                        delattr(o, a)
+                    else:
+                        setattr(o, a, v)
+        if vs:
+            break
+    return Case(vs, True, ["direct-" + spec["direct"], "runs=%d" % spec.get("runs", 2)] + list(spec.get("labels", [])), {"log": model.log[:12]})
+
+
+def _plan():
+    return {"setUp": [], "body": [], "tearDown": []}
+
+
+def _reg(n, k="closure", b=()):
+    return {"o": "reg", "n": n, "k": k, "b": list(b)}
+
+
+def _place(plan, site, ops):
+    """Put ops at a site; 'cleanup' = inside a cleanup registered by the test method."""
+    if site == "cleanup":
+        plan["body"].append(_reg("holder", "closure", ops))
+    else:
+        plan[site] += ops
+
+
+def _fault(plan, fault):
+    if fault:
+        plan["body"].append({"o": "raise", "k": fault})
+
+
+def _enum_direct():
+    sites = ("setUp", "body", "tearDown", "cleanup")
+    # A2: what kind of callable is registered (x where, x what fails)
+    for kind in D_CALLABLES:
+        for site in sites:
+            for fault in (None, "error", "kbi", "self_error"):
+                if fault == "self_error" and kind == "builtin":
+                    continue
+                plan = _plan()
+                plan["setUp"].append(_reg("first"))
+                b = [{"o": "log", "n": "in-x"}] if kind != "builtin" else []
+                if fault == "self_error":
+                    b.append({"o": "raise", "k": "error"})
+                _place(plan, site, [_reg("a"), _reg("x", kind, b), _reg("b")])
+                _fault(plan, fault if fault != "self_error" else None)
+                yield {"direct": "callable", "plan": plan, "labels": ["callable=" + kind]}
+    # entry points other than run(result)
+    for entry in ("call", "noresult"):
+        for site in sites:
+            for fault in (None, "error", "kbi"):
+                plan = _plan()
+                plan["setUp"].append(_reg("first"))
+                _place(plan, site, [_reg("a"), _reg("b", "closure", [_reg("late")])])
+                _fault(plan, fault)
+                yield {"direct": "entry", "plan": plan, "entry": entry, "labels": ["entry=" + entry]}
+    # A3: another test (another class / a clone of this one) runs while this one is between setUp and its cleanups
+    for how in ("other", "clone"):
+        for site in sites:
+            for ifault in (None, "error"):
+                for fault in (None, "error", "kbi"):
+                    plan = _plan()
+                    plan["setUp"].append(_reg("o-setUp"))
+                    plan["body"].append(_reg("o-body"))
+                    _place(plan, site, [{"o": "inner"}, {"o": "log", "n": "after-inner"}])
+                    _fault(plan, fault)
+                    iplan = _plan()
+                    iplan["setUp"].append(_reg("i-setUp"))
+                    iplan["body"] += [_reg("i-body", "closure", [_reg("i-late")]), {"o": "log", "n": "i-body"}]
+                    _fault(iplan, ifault)
+                    yield {"direct": "nested", "plan": plan, "inner": {"how": how, "plan": iplan}, "labels": ["inner=" + how]}
+    # the result is told to stop while the test runs: its cleanups are still owed
+    for where in ("setUp", "body", "tearDown", "cleanup"):
+        for result in ("real", "stdlib", "ext"):
+            for fault in (None, "error"):
+                plan = _plan()
+                plan["setUp"].append(_reg("first"))
+                plan["body"] += [_reg("a"), _reg("b", "closure", [_reg("late")])]
+                _place(plan, where, [{"o": "stop"}])
+                plan["body"].append(_reg("c"))
+                _fault(plan, fault)
+                yield {"direct": "stop", "plan": plan, "result": result, "labels": ["stop=" + where]}
+    # patch() with a value that equals the original, or whose == cannot be asked: the original object is back afterwards
+    for vkind in D_VALUES:
+        for site in ("setUp", "body"):
+            for fault in (None, "error"):
+                for obj in (0, 2):
+                    plan = _plan()
+                    plan[site] += [_reg("a"), {"o": "patchv", "v": vkind}, _reg("b")]
+                    _fault(plan, fault)
+                    yield {"direct": "identity", "plan": plan, "vkind": vkind, "obj": obj, "labels": ["value=" + vkind]}
+    # one MonkeyPatcher holding several patches (two of them of one attribute), undone by a cleanup / by run_with_patches
+    for via in ("cleanup", "rwp", "rwp_raise"):
+        for site in ("setUp", "body", "cleanup"):
+            for fault in (None, "error", "kbi"):
+                for obj in (0, 2):
+                    plan = _plan()
+                    plan["setUp"].append(_reg("reader0", "closure", [{"o": "read", "n": "r0"}]))
+                    _place(plan, site, [_reg("reader1", "closure", [{"o": "read", "n": "r1"}]), {"o": "patcher", "n": "p", "via": via},
+                                        _reg("reader2", "closure", [{"o": "read", "n": "r2"}])])
+                    _fault(plan, fault)
+                    yield {"direct": "patcher", "plan": plan, "obj": obj, "labels": ["patcher=" + via]}
+    # an exception object whose traceback cannot be rendered, raised by the test method or by tearDown: the later stages
+    # and all cleanups still run (raised by setUp or by a cleanup it loses cleanups today - third audit B1 - so those
+    # two sites are left out until the tree is repaired)
+    for kind in ("api_error", "syntax_error"):
+        for site in ("body", "tearDown"):
+            for late in (False, True):
+                plan = _plan()
+                plan["setUp"].append(_reg("c-setUp"))
+                plan["body"].append(_reg("c-body", "closure", [_reg("late")] if late else []))
+                plan["tearDown"].append({"o": "log", "n": "tearDown"})
+                plan[site].append({"o": "raise", "k": kind})
+                yield {"direct": "unrenderable", "plan": plan, "labels": ["unrenderable=" + kind]}
+    # a duck-typed fixture (setUp / cleanUp / getDetails, not a fixtures.Fixture)
+    for site in sites:
+        for cfail in (False, True):
+            for fault in (None, "error", "kbi"):
+                plan = _plan()
+                plan["setUp"].append(_reg("first"))
+                _place(plan, site, [_reg("a"), {"o": "duck", "n": "d", "cfail": cfail}, _reg("b")])
+                _fault(plan, fault)
+                yield {"direct": "duck-fixture", "plan": plan, "labels": ["duck-fixture"]}
+    # a cleanup that registers the next one, more links than the interpreter allows frames
+    for site in ("setUp", "body"):
+        for fail_at in (None, 0, 600):
+            plan = _plan()
+            plan["setUp"].append(_reg("first"))
+            plan[site].append({"o": "chain", "n": 1100, "fail_at": fail_at})
+            yield {"direct": "chain", "plan": plan, "labels": ["chain"]}
+
+
 def subchecks(tier):
     q = tier == "quick"
     return [
@@ -172,6 +765,13 @@ def subchecks(tier):
         Sub("double_patch_grid", run_case, enum=_enum_double_patch, enum_complete=True,
             note="one attribute patched twice with reading cleanups before / between / after, x existing / None-valued / missing "
                  "attribute x plain / slotted object x setUp / test method x no fault / error / KeyboardInterrupt, run twice"),
+        Sub("direct_programs_grid", run_direct, enum=_enum_direct, enum_complete=True,
+            note="hand-written programs outside the generated vocabulary: 13 kinds of callable handed to addCleanup (partial, callable "
+                 "instance, builtin method, class, Mock, methodcaller, enterContext, keyword names of the plumbing, ...) x 4 sites x 4 faults; "
+                 "entry points case(result) / run(); another test or a clone run from inside setUp / test / tearDown / a cleanup; "
+                 "result.stop() during the test x 3 results; patch() with equal-but-distinct / incomparable values (identity after the run); "
+                 "one MonkeyPatcher with several patches undone by a cleanup / run_with_patches; a 1100-link chain of cleanups "
+                 "registering cleanups; each run twice"),
         Sub("registration_x_fault_grid", run_case, enum=_enum, enum_complete=True,
             note="6 registration sites x 8 fault sites x {error, KeyboardInterrupt, skip} x {cleanup, patch, fixture}, each run twice"),
     ]
